@@ -196,7 +196,7 @@ def campaign(pid: str, mod_name: str, tier: str, master_seed: int, n_runs: int, 
                 try:
                     r = done.result()
                 except BrokenProcessPool as e:
-                    pool_broken = f"worker died while running seed {s}: {e}"
+                    pool_broken = f"worker died while running seed {s} (wall-clock guard of {opts.get('task_timeout', 420)} s or crash): {e}"
                     break
                 except Exception as e:
                     r = dict(seed=s, status="harness_error", detail=repr(e))
